@@ -180,7 +180,7 @@ package rlp
 //@ func Stream.Kind
 //@   option trusted
 //@   requires s != nil
-//@   ensures err == nil ==> s.kind == kind && s.size == size
+//@   ensures err == nil ==> s.kind == kind && s.size == size && (kind == Byte || kind == String || kind == List)
 //@   modifies *s
 
 //@ func Stream.readUint
